@@ -224,6 +224,8 @@ def check(db, rep):
 
     lexer_reset_rule(db, r1, r2, M)
 
+    r5 = rep.rule('r5', 'WRAPPER-RESET: every exit of an entry point of the schema-level auditor (which exposes the verdict flags of the analyser it wraps) is reached through the wrapped analyser\'s own entry point or after the flags were cleared explicitly - an early refusal must not leave the verdict of the previous check readable', 2)
+    _wrapper_reset(db, r5)
     r4 = rep.rule('r4', 'SELF-REFERENCE: an analyser whose implementation object points at a member of the analyser (the parser driver at the parser state) is never moved memberwise: a moved analyser would go on using the state of the object it was moved from', 1)
     from rules.shared_selfref import selfref_rule
     selfref_rule(db, r4, ['ccl::rslang::'])
@@ -432,3 +434,31 @@ def lexer_reset_rule(db, r1, r2, M):
                 rule_.ok(inst, '%s rebinds the input and re-initialises %s' % (entry.name.split('::')[-1], sorted(written) or 'no user members'), '%s:%d' % (entry.file, entry.line))
 
     # r3 statics
+
+
+def _wrapper_reset(db, r5):
+    from engine.cfgq import paths_avoiding
+    SA = 'ccl::semantic::SchemaAuditor'
+    rec = db.record(SA, required=False)
+    if rec is None:
+        r5.broken('anchor vanished: SchemaAuditor (is the CCL unit loaded?)')
+        return
+    for name in ('CheckConstituenta', 'CheckExpression'):
+        f = db.fn(SA + '::' + name, required=False)
+        if f is None:
+            r5.broken('anchor vanished: SchemaAuditor::%s' % name)
+            continue
+        must = [f.position_of(n) for n in f.calls() if n.get('cs') == NS + 'Auditor::CheckType']
+        for n in f.walk():
+            if n['k'] in ('BinaryOperator',) and n.get('op') == '=':
+                l = f.strip(f.children(n)[0])
+                if l is not None and l['k'] == 'MemberExpr' and l.get('member') == 'isParsed':
+                    must.append(f.position_of(n))
+        must = [p for p in must if p is not None]
+        exits = [(p, '') for p, _ in f.return_sites()]
+        entry = f.graph()[1]
+        bad = paths_avoiding(f, [entry], must, exits) if must else [True]
+        if bad:
+            r5.violation(name, '%s:%d' % (f.file, f.line), 'a path returns without running the wrapped Auditor::CheckType and without clearing isParsed/isTypeCorrect/isValueCorrect: after a successful check, a refused one (base set with a definition, derived constituent without one) still reports parsed, type and value correct - and CheckValue() then dereferences the tree the previous check handed out')
+        else:
+            r5.ok(name, 'every exit passes the wrapped entry point or clears the verdict', '%s:%d' % (f.file, f.line))
